@@ -132,6 +132,8 @@ def run_enum(desc, prop, selector):
         out.stats['patterns_multi_segment'] += len(segs) > 1
         for pp in variants(segs, idx):
             for cfg in configs_for(segs, idx, desc['ncfg']):
+                if idx % 2:
+                    cfg = dict(cfg, variant=1 + idx % 15)
                 lang.eval_path(pp, cfg, paths, out, armed, prop, selector(cfg), entry=idx % 3)
         if len(segs) > 1 and idx % 2 == 0:
             # the same pattern with every separator written as an escaped slash `\/` (same meaning, never slash-less)
